@@ -85,7 +85,18 @@ def d4_key_names_agree(ctx, repo):
                 for st in A.walk_stmts(lp.body):
                     if isinstance(st, ast.Assign) and isinstance(st.targets[0], ast.Subscript) and A.norm(st.targets[0].value) == cont_txt and \
                             isinstance(st.value, ast.Call) and A.norm(st.value.func) == f"{cont_txt}.pop" and [A.norm(a) for a in st.value.args] == [lp.target.id]:
-                        out.append((A.norm(lp.iter), A.norm(st.targets[0].slice).replace(lp.target.id, "$name")))
+                        # the new key, with temporaries of the loop body substituted and the loop variable written $name
+                        import copy as _copy
+                        key_ = _copy.deepcopy(st.targets[0].slice)
+                        if isinstance(key_, ast.Name) and key_.id != lp.target.id:
+                            defs_ = [x for x in A.walk_stmts(lp.body) if isinstance(x, ast.Assign) and len(x.targets) == 1 and A.norm(x.targets[0]) == key_.id]
+                            if len(defs_) == 1:
+                                key_ = _copy.deepcopy(defs_[0].value)
+
+                        class _Ph(ast.NodeTransformer):
+                            def visit_Name(self, n, v=lp.target.id):
+                                return ast.Name(id="NAME_", ctx=n.ctx) if n.id == v else n
+                        out.append((A.norm(lp.iter), A.norm(_Ph().visit(key_)).replace("NAME_", "$name")))
         return out
     rd, re_, rt = renames(d, "doc['data_keys']"), renames(e, "doc['data']"), renames(e, "doc['timestamps']")
     ok = len(rd) == 1 and rd == re_ == rt
